@@ -107,6 +107,7 @@ PROPS["C01"]["props"] = PROPS["C01"]["props"] + ["Props/C01b.v"]
 PROPS["C09"]["props"] = PROPS["C09"]["props"] + ["Props/C09b.v"]
 PROPS["C09"]["props"] = PROPS["C09"]["props"] + ["Props/C09d.v"]   # lexical side: whitespace invariance for every input (fuel independence)
 PROPS["C09"]["tables"] = ["T1", "T2", "T3", "T4", "T5"]
+PROPS["C09"]["run"] = ["Run/EnumRun.v", "Run/LexRun.v"]   # lexical half of the stream (lexprops::c09_lexical_ws) is compared with the lexical parser model
 PROPS["C09"]["assumptions"] = PROPS["C09"]["assumptions"] + [
     "lexical side (Props/C09d.v): for EVERY input the lexical parser model's result depends on the whitespace-free text only (idealize_env s = idealize_env s' -> lex_parse s = lex_parse s'; inserting any White_Space code points anywhere changes nothing), proved via fuel independence of the term layer; hypothesis: non-empty opening brackets (true of the shipped tables by computation)",
 ]
